@@ -718,6 +718,19 @@ func Exec(sc sim.Script) *sim.Outcome {
 				n.GetHash()
 				n.CloneNode()
 				n.Clone()
+				n.GetVersion()
+				n.GetOrigin()
+				// the value node embedded in an accepted leaf or branch is a node in its own right
+				if vn := util.GetValueNode(n); vn != nil {
+					r.stats.Inc("probe.embedded-value-node-re-encoded")
+					vn.Encode()
+					vn.GetHashBytes()
+					vn.CloneNode()
+					vn.Clone()
+					vn.GetVersion()
+					vn.GetOrigin()
+					vn.GetValueBytes()
+				}
 			})
 		}
 	case "mptstore":
